@@ -520,7 +520,11 @@ def run(ctx):
     for src in sources(ctx):
         try:
             obj = C.load_bytes(source_bytes(src))
-        except Exception:
+        except Exception as e:
+            # every source is a fixture of the repository or a well-formed file built here; all of them load on the
+            # unchanged tree, so a file that cannot even be opened for editing is reported, not skipped
+            ctx.add([C.viol("source-file-not-loadable", {"src": src.get("fixture") or src.get("type") or str(sorted(src))[:60],
+                                                         "exc": type(e).__name__}, {"error": repr(e)[:200]}, None)])
             continue
         nsrc += 1
         if isinstance(obj, Project):
